@@ -5,7 +5,7 @@ name=sys.argv[1]
 m=importlib.import_module(name)
 u=m.build()
 path,meta=u.write()
-r=verus.run(path)
+r=verus.run(path, rlimit=getattr(m,'RLIMIT',None))
 verus.attribute(r,meta)
 print('verified',r['verified'],'errors',r['errors'],'fe',r['front_end_error'],'wall',round(r['wall_s'],1))
 for m_ in r['front_end_msgs'][:30]: print('FE:',m_)
